@@ -36,7 +36,13 @@ type c17Tree struct {
 	order  []string       // file paths, sorted
 	dirs   []string       // directories (and other things that exist), incl. ancestors of root
 	byMark map[int]string
+	rel    []string // file paths relative to root, marker i+1
+	mask   uint64   // which of c17HostExtras exist
 }
+
+// c17HostExtras are things outside the tree that may exist on the host and
+// must never be read (Run/C17.v has the same list).
+var c17HostExtras = []string{"/etc/passwd", "/etc/hostname", "/etc", "/proc/self/environ", "/proc/self", "/proc"}
 
 func c17Content(m int) string { return fmt.Sprintf("||marker%d.example^\n", m) }
 
@@ -61,6 +67,7 @@ func c17MakeTree(t testing.TB, root string) *c17Tree {
 		"safe/a.txt", "safe/b.lst", "safe/sub/c.txt", "safe2/d.txt", "secret/s.txt", "other.txt",
 		"safe/[x].txt", "safe/\xc3\xbc.txt", "safe/sub/deep/e.txt", "safe/-.txt",
 	}
+	tr.rel = rel
 	for i, r := range rel {
 		p := filepath.Join(root, r)
 		if err := os.MkdirAll(filepath.Dir(p), 0o755); err != nil {
@@ -90,8 +97,9 @@ func c17MakeTree(t testing.TB, root string) *c17Tree {
 		}
 	}
 	// things outside the tree that exist on the host and must never be read
-	for _, p := range []string{"/etc/passwd", "/etc/hostname", "/etc", "/proc/self/environ", "/proc/self", "/proc"} {
+	for i, p := range c17HostExtras {
 		if _, err := os.Stat(p); err == nil {
+			tr.mask |= 1 << uint(i)
 			addDir(p)
 		}
 	}
@@ -369,6 +377,22 @@ func c17CheckLoad(tr *c17Tree, pats []string, loc string, m int) (ok bool, msg s
 
 // ---- Gallina printers
 
+// c17P prints a string relative to the tree root (Run/C17.v: pstr).
+func (tr *c17Tree) P(x string) string {
+	if strings.HasPrefix(x, tr.root) {
+		return "(true, " + vfBytes(x[len(tr.root):]) + ")"
+	}
+	return "(false, " + vfBytes(x) + ")"
+}
+
+func (tr *c17Tree) PList(xs []string) string {
+	items := make([]string, len(xs))
+	for i, x := range xs {
+		items[i] = tr.P(x)
+	}
+	return vfList("pstr", items)
+}
+
 func c17BytesList(xs []string) string {
 	items := make([]string, len(xs))
 	for i, x := range xs {
@@ -377,12 +401,12 @@ func c17BytesList(xs []string) string {
 	return vfList("bytes", items)
 }
 
-func c17Rows2Coq(rows []c17Row) string {
+func (tr *c17Tree) Rows2Coq(rows []c17Row) string {
 	items := make([]string, len(rows))
 	for i, r := range rows {
-		items[i] = "(" + vfBytes(r.URL) + ", " + vfBool(r.Enabled) + ", " + vfN(uint64(r.Loaded)) + ")"
+		items[i] = "(" + tr.P(r.URL) + ", " + vfBool(r.Enabled) + ", " + vfN(uint64(r.Loaded)) + ")"
 	}
-	return vfList("bytes * bool * N", items)
+	return vfList("prow", items)
 }
 
 func c17PlantRows(ps []c17Plant) []c17Row {
@@ -393,12 +417,14 @@ func c17PlantRows(ps []c17Plant) []c17Row {
 	return rows
 }
 
-func (tr *c17Tree) coqFiles() string {
-	items := make([]string, len(tr.order))
-	for i, p := range tr.order {
-		items[i] = "(" + vfBytes(p) + ", " + vfN(uint64(tr.files[p])) + ")"
+// coqTree prints the tree itself (relative names, markers) and the host
+// candidates, for the CTree case.
+func (tr *c17Tree) coqTree() string {
+	items := make([]string, len(tr.rel))
+	for i, r := range tr.rel {
+		items[i] = "(" + vfBytes(r) + ", " + vfN(uint64(i+1)) + ")"
 	}
-	return vfList("bytes * N", items)
+	return vfApp("CTree", vfList("bytes * N", items), c17BytesList(c17HostExtras))
 }
 
 func c17CoqHTTP(locs []string) (httpL, urlok string) {
@@ -520,27 +546,27 @@ func c17GoodLoc(r *vfRand, tr *c17Tree) (loc, class string) {
 	return vfPick(r, tr.order), "loc-plain"
 }
 
-func c17OpsCoq(ops []c17Op) string {
+func (tr *c17Tree) OpsCoq(ops []c17Op) string {
 	items := make([]string, len(ops))
 	for i, o := range ops {
 		switch o.Kind {
 		case "add":
-			items[i] = vfApp("op_add", vfBytes(o.Loc), vfBool(o.White))
+			items[i] = vfApp("op_add", tr.P(o.Loc), vfBool(o.White))
 		case "set":
-			items[i] = vfApp("op_set", vfBytes(o.Old), vfBytes(o.Loc), vfBool(o.Enabled), vfBool(o.White))
+			items[i] = vfApp("op_set", tr.P(o.Old), tr.P(o.Loc), vfBool(o.Enabled), vfBool(o.White))
 		default:
 			items[i] = vfApp("op_refresh", vfBool(o.White))
 		}
 	}
-	return vfList("op", items)
+	return vfList("eop", items)
 }
 
-func c17ObsCoq(obs []c17Obs) string {
+func (tr *c17Tree) ObsCoq(obs []c17Obs) string {
 	items := make([]string, len(obs))
 	for i, o := range obs {
-		items[i] = "(" + vfN(uint64(o.Code)) + ", " + vfN(uint64(o.Updated)) + ", " + c17Rows2Coq(o.Block) + ", " + c17Rows2Coq(o.Allow) + ")"
+		items[i] = "(" + vfN(uint64(o.Code)) + ", " + vfN(uint64(o.Updated)) + ", " + tr.Rows2Coq(o.Block) + ", " + tr.Rows2Coq(o.Allow) + ")"
 	}
-	return vfList("obs_step", items)
+	return vfList("eobs", items)
 }
 
 // c17History runs one history and emits one case.
@@ -612,8 +638,8 @@ func c17History(t *testing.T, out *vfOut, tr *c17Tree, dataDir string, pats []st
 	}
 	httpL, urlok := c17CoqHTTP(locs)
 	c := vfCase{
-		Coq: vfApp("CHist", c17BytesList(pats), tr.coqFiles(), c17BytesList(tr.dirs), httpL, urlok,
-			c17Rows2Coq(c17PlantRows(block)), c17Rows2Coq(c17PlantRows(allow)), c17OpsCoq(ops), c17ObsCoq(obs)),
+		Coq: vfApp("CHist", vfBytes(tr.root), vfN(tr.mask), tr.PList(pats), httpL, urlok,
+			tr.Rows2Coq(c17PlantRows(block)), tr.Rows2Coq(c17PlantRows(allow)), tr.OpsCoq(ops), tr.ObsCoq(obs)),
 		Nontrivial: nontrivial,
 		Classes:    classes,
 		MonitorOK:  monOK, MonitorMsg: monMsg,
@@ -708,7 +734,7 @@ func c17EmitValidate(out *vfOut, tr *c17Tree, d *DNSFilter, pats []string, loc, 
 	}
 	_, urlok := c17CoqHTTP([]string{loc})
 	c := vfCase{
-		Coq:        vfApp("CValidate", c17BytesList(pats), tr.coqFiles(), c17BytesList(tr.dirs), urlok, vfBytes(loc), vfN(uint64(code))),
+		Coq:        vfApp("CValidate", vfBytes(tr.root), vfN(tr.mask), tr.PList(pats), urlok, tr.P(loc), vfN(uint64(code))),
 		Nontrivial: code != 3, Classes: []string{"validate", cl, fmt.Sprintf("validate-code-%d", code)},
 		MonitorOK: ok, MonitorMsg: msg,
 		Desc: map[string]any{"op": "validateFilterURL", "patterns": pats, "loc": loc, "code": code},
@@ -746,7 +772,7 @@ func c17EmitReader(out *vfOut, tr *c17Tree, d *DNSFilter, pats []string, loc, cl
 	}
 	httpL, _ := c17CoqHTTP([]string{loc})
 	c := vfCase{
-		Coq:        vfApp("CReader", c17BytesList(pats), tr.coqFiles(), httpL, vfBytes(loc), vfN(uint64(code)), vfN(uint64(m))),
+		Coq:        vfApp("CReader", vfBytes(tr.root), tr.PList(pats), httpL, tr.P(loc), vfN(uint64(code)), vfN(uint64(m))),
 		Nontrivial: filepath.IsAbs(loc), Classes: []string{"reader", cl, fmt.Sprintf("reader-code-%d", code)},
 		MonitorOK: ok, MonitorMsg: msg,
 		Desc: map[string]any{"op": "reader", "patterns": pats, "loc": loc, "code": code, "marker": m},
@@ -789,6 +815,9 @@ func c17GenName(r *vfRand) string {
 	return string(b)
 }
 
+// c17Cur is the tree of the running test (for the compact printers).
+var c17Cur *c17Tree
+
 func c17EmitGlob(out *vfOut, pat, name string) {
 	ok, err := filepath.Match(pat, name)
 	code := 0
@@ -803,7 +832,11 @@ func c17EmitGlob(out *vfOut, pat, name string) {
 	if code == 1 && !strings.ContainsAny(pat, "[\\") && strings.Count(pat, "/") != strings.Count(name, "/") {
 		mok, msg = false, "a class-free pattern matched a name with a different number of separators"
 	}
-	c := vfCase{Coq: vfApp("CGlob", vfBytes(pat), vfBytes(name), vfN(uint64(code))), Nontrivial: code != 0,
+	coq := vfApp("CGlob", vfBytes(pat), vfBytes(name), vfN(uint64(code)))
+	if tr := c17Cur; tr != nil && (strings.HasPrefix(pat, tr.root) || strings.HasPrefix(name, tr.root)) {
+		coq = vfApp("CGlobR", vfBytes(tr.root), tr.P(pat), tr.P(name), vfN(uint64(code)))
+	}
+	c := vfCase{Coq: coq, Nontrivial: code != 0,
 		Classes: []string{"glob", fmt.Sprintf("glob-%d", code)}, MonitorOK: mok, MonitorMsg: msg,
 		Desc: map[string]any{"op": "filepath.Match", "pattern": pat, "name": name, "code": code}}
 	if !mok {
@@ -825,7 +858,11 @@ func c17EmitClean(out *vfOut, p string) {
 			}
 		}
 	}
-	c := vfCase{Coq: vfApp("CClean", vfBytes(p), vfBytes(b)), Nontrivial: a != p,
+	coq := vfApp("CClean", vfBytes(p), vfBytes(b))
+	if tr := c17Cur; tr != nil && strings.HasPrefix(p, tr.root) {
+		coq = vfApp("CCleanR", vfBytes(tr.root), tr.P(p), tr.P(b))
+	}
+	c := vfCase{Coq: coq, Nontrivial: a != p,
 		Classes: []string{"clean"}, MonitorOK: mok, MonitorMsg: msg,
 		Desc: map[string]any{"op": "Clean", "in": p, "out": b}}
 	if !mok {
@@ -847,6 +884,10 @@ func TestVerifC17(t *testing.T) {
 	R := tr.root
 	sets := c17PatternSets(R)
 	out.Note("root", R)
+	c17Cur = tr
+	// the tree itself, checked against the constants of Run/C17.v
+	out.Emit(vfCase{Coq: tr.coqTree(), Nontrivial: true, Classes: []string{"tree"}, MonitorOK: true,
+		Desc: map[string]any{"op": "tree", "files": tr.rel, "host": c17HostExtras}})
 
 	// Prelude: constructed histories, one per entry point and hostile spelling.
 	safe := []string{R + "/safe/*"}
@@ -877,7 +918,7 @@ func TestVerifC17(t *testing.T) {
 
 	rnd := vfNewRand(out.Seed)
 	rh := rnd.Fork(1)
-	n := out.Scale(200, 1500)
+	n := out.Scale(400, 4000)
 	for i := 0; i < n; i++ {
 		pats := sets[rh.Intn(len(sets))]
 		if rh.Chance(1, 3) {
@@ -889,7 +930,7 @@ func TestVerifC17(t *testing.T) {
 
 	// validateFilterURL and reader alone, every pattern set.
 	rv := rnd.Fork(2)
-	per := out.Scale(24, 150)
+	per := out.Scale(40, 300)
 	for _, pats := range sets {
 		d, err := c17New(t, dataDir, pats, nil, nil)
 		if err != nil {
@@ -907,7 +948,7 @@ func TestVerifC17(t *testing.T) {
 
 	// differential streams
 	rg := rnd.Fork(3)
-	n = out.Scale(2000, 30000)
+	n = out.Scale(3000, 60000)
 	for i := 0; i < n; i++ {
 		c17EmitGlob(out, c17GenPattern(rg), c17GenName(rg))
 	}
@@ -919,7 +960,7 @@ func TestVerifC17(t *testing.T) {
 		}
 	}
 	rc := rnd.Fork(4)
-	n = out.Scale(600, 8000)
+	n = out.Scale(800, 15000)
 	for i := 0; i < n; i++ {
 		loc, _ := c17Loc(rc, tr)
 		if rc.Bool() {
